@@ -240,6 +240,7 @@ func legacyCase(c *mon.Case, lc lcurve, sg lsigner, dk, plant string) {
 	}
 	uid := [][]byte{nil, c.R.Bytes(16), c.R.Bytes(c.R.Range(1, 60))}[c.R.Intn(3)]
 	msg := c.R.Bytes(c.R.Intn(200))
+	uid, msg = adjacent(c.R, uid, msg)
 	e := sm2sig.E(zaGeneric(lc.c.Params(), k.X, k.Y, effUID(uid)), msg)
 	if lc.isSM2 { // the generic ZA must agree with the reference on the SM2 numbers
 		if e2, _ := sm2sig.MessageDigest(k.X, k.Y, effUID(uid), msg); string(e2) != string(e) {
